@@ -39,6 +39,10 @@ def flow_inputs(rng: random.Random, thorough: bool, want_unstructurable: bool = 
     cases = [dict(c, origin="exhaustive") for c in ex3 + ex4]
     stats["exhaustive_le3"] = len(ex3)
     stats["exhaustive_4" + ("" if thorough else "_sampled")] = len(ex4)
+    # recorded witness of the listed finding C02-entry-jump-is-a-jump-target (part of every run)
+    wit = [{"off": 0, "op": "Jump", "ps": [], "tgt": 2}, {"off": 1, "op": "Branch", "ps": ["c:$V", "i:1"], "tgt": 0}, {"off": 2, "op": "a2", "ps": ["i:2"], "tgt": -1},
+           {"off": 3, "op": "Jump", "ps": [], "tgt": 1}]
+    cases.append({"routines": [[dict(o, pseudo=False) for o in wit]], "infos": [{"kind": "GENERIC", "target": "i:0", "coro": ""}], "origin": "finding-witness"})
     sp = [dict(c, origin="special") for c in gen_flow.special_families()]
     cases += sp
     stats["special_syntax"] = len(sp)
@@ -52,6 +56,7 @@ def flow_inputs(rng: random.Random, thorough: bool, want_unstructurable: bool = 
     # compiler-shaped: compile results of programs whose routines all end in a terminator, renumbered as a binary has them
     srcs = enum_exps.c01_family(False)
     srcs = srcs[::7] if not thorough else srcs[::2]
+    srcs += enum_exps.loop_nests()[:: (1 if thorough else 2)]
     for _ in range(4000 if thorough else 500):
         srcs.append(gen_exps.random_program(rng, max_depth=rng.choice([1, 2, 3])))
     n_corpus_srcs = len(srcs)
